@@ -135,7 +135,7 @@ class C16(Prop):
                   "dispatch lines — is pinned by translate/structs.py: C16_macro_pinned), src/convert.rs, Paragraph::{get,set,remove,FromIterator} of "
                   "src/lossy.rs and src/lossless.rs, the serialize_with/deserialize_with functions of the shipped structs. Known class "
                   "empty_list_split_newline (pending patch): the empty list of a join(\"\\n\")/split('\\n') field.")
-    rule = ("derive: for each of the deriving structs (12 shipped + 5 test structs of src/convert.rs): every presence pattern of its first 4 "
+    rule = ("derive: for each of the deriving structs (12 shipped + 5 test structs of src/convert.rs + 2 fixture structs of spec/derive_fixtures.rs whose field options are split over several #[deb822(...)] attributes, all derived with the real macro): every presence pattern of its first 4 "
             "optional fields, plus random values (strings incl. multi-line/Unicode/odd white space, booleans, integers at the type bounds, "
             "lists, pool values of each external codec incl. non-canonical spellings) built through from_paragraph, x prior paragraphs "
             "(foreign fields, stale owned fields, duplicates, comments, odd colon spacing, continuation lines, no final newline) x both "
